@@ -188,8 +188,28 @@ def strategy(max_side):
                       min_block_size=opt(1, min(sizes)), max_block_size=opt(max(sizes), h * w))
         start = draw(st.sampled_from(["default", "target", "target"]))
         allow_unmet = draw(st.integers(0, 4)) == 0
+        violate = None
+        if start == "target" and not allow_unmet and draw(st.integers(0, 2)) == 0:
+            # initial_blocks that break exactly ONE bound (the others hold): initial() has to repair them
+            opts = []
+            if min(sizes) < max(sizes):
+                opts += ["min_block_size", "max_block_size"]
+            if n >= 2:
+                opts.append("max_num_blocks")
+            if n < h * w:
+                opts.append("min_num_blocks")
+            if opts:
+                violate = draw(st.sampled_from(opts))
+                if violate == "min_block_size":
+                    bounds["min_block_size"] = draw(st.integers(min(sizes) + 1, max(sizes)))
+                elif violate == "max_block_size":
+                    bounds["max_block_size"] = draw(st.integers(max(bounds["min_block_size"] or 1, min(sizes)), max(sizes) - 1))
+                elif violate == "max_num_blocks":
+                    bounds["max_num_blocks"] = draw(st.integers(max(bounds["min_num_blocks"] or 1, 1), n - 1)) if (bounds["min_num_blocks"] or 1) <= n - 1 else bounds["max_num_blocks"]
+                else:
+                    bounds["min_num_blocks"] = draw(st.integers(n + 1, min(h * w, bounds["max_num_blocks"] or h * w))) if n + 1 <= (bounds["max_num_blocks"] or h * w) else bounds["min_num_blocks"]
         walk = draw(st.lists(st.integers(0, 10**6), min_size=1, max_size=40))
-        return dict(h=h, w=w, target=target, bounds=bounds, start=start, allow_unmet=allow_unmet,
+        return dict(h=h, w=w, target=target, bounds=bounds, start=start, allow_unmet=allow_unmet, violate=violate,
                     pyseed=draw(st.integers(0, 10**6)), walk=walk)
 
     return c()
@@ -216,6 +236,8 @@ def shard(arg):
         for k in ks:
             cl.append("kind:" + k)
         cl.append("start:" + case["start"])
+        if case.get("violate") and not out["inconclusive"]:
+            cl.append("initial_blocks-breaking-one-bound-repaired")
         nt = len(ks) >= 2
         st.case(canon=case, nontrivial=nt, classes=cl,
                 sample=dict(case, kinds=out["kinds"]) if nt else None)
@@ -247,6 +269,8 @@ def run(ctx):
     tot = max(1, ctx.stats.evaluations)
     ctx.floor("walks with merge+split+move (share)", round(cl["walk-with-all-three-kinds"] / tot, 3), 0.12)
     ctx.floor("boards with a side of 1 (share)", round(cl["board-with-side-1"] / tot, 3), 0.05)
+    ctx.floor("initial_blocks that break one bound and were repaired by initial()",
+              ctx.stats.classes["initial_blocks-breaking-one-bound-repaired"], 100)
     ctx.floor("share of walks not stopped by the initial() guard",
               round(1 - cl["initial-guard-hit"] / tot, 3), 0.9)
 
